@@ -834,3 +834,33 @@ Lemma prep_md_fixed_agrees_lemma nvec t : rank t <> 3 -> prep_md false nvec t = 
 Proof.
   intros H. unfold prep_md. rewrite (add_batch_dim_rank_only t [sum nvec] [length nvec]); auto.
 Qed.
+(* ------------------------------------------------------------------ batch composition and ordering *)
+Lemma Forall2_nth {A B} (R : A -> B -> Prop) l1 l2 d1 d2 i :
+  Forall2 R l1 l2 -> i < length l1 -> R (nth i l1 d1) (nth i l2 d2).
+Proof.
+  intros H; revert i; induction H; intros i Hi; cbn in *; [lia|].
+  destruct i; auto. apply IHForall2. lia.
+Qed.
+
+Lemma Forall2_length {A B} (R : A -> B -> Prop) l1 l2 : Forall2 R l1 l2 -> length l1 = length l2.
+Proof. induction 1; cbn; auto. Qed.
+
+(* the prepared row of an observation depends on that observation only: not on its position in the batch,
+   not on the batch size or (step, env) layout, not on the other observations sharing the call *)
+Lemma prep_row_determined_lemma mdf nz l lead1 t1 lead2 t2 t1' t2' i j :
+  supported mdf l lead1 t1 -> supported mdf l lead2 t2 ->
+  prep_leaf mdf nz l t1 = Some t1' -> prep_leaf mdf nz l t2 = Some t2' ->
+  i < prod lead1 -> j < prod lead2 ->
+  nth i (chunks (prod (space_shape l)) (prod lead1) (dat t1)) [] = nth j (chunks (prod (space_shape l)) (prod lead2) (dat t2)) [] ->
+  nth i (rows t1') [] = nth j (rows t2') [].
+Proof.
+  intros S1 S2 H1 H2 Hi Hj Heq.
+  destruct (prep_rowwise_lemma mdf nz l lead1 t1 S1) as (u1 & Hu1 & F1).
+  destruct (prep_rowwise_lemma mdf nz l lead2 t2 S2) as (u2 & Hu2 & F2).
+  rewrite H1 in Hu1; injection Hu1 as <-. rewrite H2 in Hu2; injection Hu2 as <-.
+  pose proof (Forall2_length _ _ _ F1) as L1. pose proof (Forall2_length _ _ _ F2) as L2.
+  rewrite chunks_length in L1, L2.
+  pose proof (Forall2_nth _ _ _ [] [] i F1 ltac:(lia)) as R1.
+  pose proof (Forall2_nth _ _ _ [] [] j F2 ltac:(lia)) as R2.
+  cbv beta in R1, R2. rewrite Heq in R1. rewrite R1 in R2. injection R2 as ->. reflexivity.
+Qed.
